@@ -243,7 +243,9 @@ func genC04(e *emitter, tier string, seed uint64) map[string]interface{} {
 					}
 				} else {
 					body, _ = pb.Marshal(ce)
-					switch rg.intn(3) {
+					switch rg.intn(4) {
+					case 3:
+						body = append(body, 0x78, 0x01, 0x82, 0x01, 0x02, 'h', 'i') // unknown fields: decodable (the oracle below is the protobuf decoder)
 					case 0:
 						body = append(body, 0x07)
 					case 1:
@@ -294,6 +296,40 @@ func genC04(e *emitter, tier string, seed uint64) map[string]interface{} {
 				e.fail(idx, "err_mapping", "non-zero status not surfaced as typed error with that status: "+res)
 			case lb != nil && dec == "none" && (lb.Code != 500 || lb.Message != "unknown error, cant unmarshal body"):
 				e.fail(idx, "err_mapping", "undecodable error body did not give the code-500 fallback: "+res)
+			}
+		}
+	}
+	// after an error the context can be used again (an application may keep a connection whose bad frame was consumed whole): polled with
+	// an EMPTY buffer the decoder asks for more data — it does not report a packet out of nothing — and the next frame decodes
+	for _, version := range []int{1, 2} {
+		for round := 0; round < 6; round++ {
+			ctx := newCtx(version, protocol.CodecProtobuf)
+			body := bytes.Repeat([]byte{'g', byte(round)}, 40)
+			bad := specEncode(version, specFrame{typ: 1 + round%3, cmd: 9, rid: uint32(round + 1), gzip: 1, body: append([]byte{0x1f, 0x8b, 8, 0, 0, 0, 0, 0, 0, 0xff}, []byte("this is not deflate data")...)})
+			good := specEncode(version, specFrame{typ: 3, cmd: 50, body: body})
+			res := guard(func() string {
+				rb := ringbuffer.New(16)
+				rb.Write(bad)
+				if _, done, err := proto(version).Unpack(ctx, rb); err == nil {
+					return fmt.Sprintf("the frame with a corrupt compressed body was accepted (done=%v)", done)
+				}
+				otherPoolUsers(version)
+				empty := ringbuffer.New(16)
+				if pk, done, err := proto(version).Unpack(ctx, empty); done || pk != nil {
+					return fmt.Sprintf("polled with an EMPTY buffer after an error the decoder reported a packet (err=%v): %s", err, showPacket(pk))
+				}
+				otherPoolUsers(version)
+				rb2 := ringbuffer.New(16)
+				rb2.Write(good)
+				pk, done, err := proto(version).Unpack(ctx, rb2)
+				if err != nil || !done || !bytes.Equal(pk.Body, body) || rb2.Length() != 0 {
+					return fmt.Sprintf("the next well-formed frame on the same context: done=%v err=%v left=%d", done, err, rb2.Length())
+				}
+				return "ok"
+			})
+			idx := e.op(fmt.Sprintf("gz.note roundtrip after-error v=%d round=%d", version, round), "ok", "after-error", true)
+			if res != "ok" {
+				e.fail(idx, fmt.Sprintf("stream_total:v%d:after-error", version), res)
 			}
 		}
 	}
